@@ -19,7 +19,7 @@ DIALECTS = {
     "panos": dict(mod=panos, model="PAN-OS", gen="PanosGen", trace="PanosTrace",
                   maps=("addrs", "groups", "svcs", "sgroups")),
     "linux": dict(mod=linux, model="Linux", gen="LinuxGen", trace="LinuxTrace", maps=("tables",)),
-    "ios": dict(mod=ios, model="IOS", gen="IosGen", trace="IosTrace", maps=("acls", "intfs")),
+    "ios": dict(mod=ios, model="IOS", gen="IosGen", trace="IosTrace", maps=("acls", "intfs", "cmaps", "ifcm")),
 }
 
 
